@@ -204,6 +204,10 @@ class _Parser(config_parse_common._Parser):
         # rename `align` property to `alignment`
         _rename_prop(v3_ft_node, 'align', 'alignment')
 
+        # remove `byte-order` property (the equivalent barectf 3
+        # configuration property is named `trace-byte-order`)
+        _del_prop_if_exists(v3_ft_node, 'byte-order')
+
         # set `size` property to a single integer (total size, in bits)
         prop_name = 'size'
         v3_ft_node[prop_name] = v3_ft_node[prop_name]['exp'] + v3_ft_node[prop_name]['mant']
